@@ -142,7 +142,7 @@ def handle (j : Json) : Except String Json := do
         (s', Json.mkObj [("err", match e with | none => Json.null | some e => Json.str (errName e)),
                           ("undo_ok", toJson ((dump sch ct s').compress == (dump sch ct plain.1).compress &&
                               (e.isNone || (dump sch ct s').compress == (dump sch ct acc.1).compress))),
-                          ("trail", toJson trailLen),
+                          ("trail", toJson trailLen), ("ranked", toJson (isRankedB sch acc.1)),
                           ("agree", toJson (checkAgree sch s')), ("nodangling", toJson (checkNoDangling sch s')),
                           ("objs", dump sch ct s')] :: acc.2)) (storeOf objs, [])
       let db := commit sch s
